@@ -1,8 +1,11 @@
+mod c02;
+mod c03;
 mod c06;
 mod c15;
 mod e1;
 mod lib_spec;
 mod refgraph;
+mod wiring;
 
 fn main() {
     let args: Vec<String> = std::env::args().skip(1).collect();
@@ -12,6 +15,8 @@ fn main() {
     mc_core::quiet_panics();
     let rest = &args[1..];
     match prop.as_str() {
+        "C02" => c02::run(rest),
+        "C03" => c03::run(rest),
         "C06" => c06::run(rest),
         "C15" => c15::run(rest),
         _ => mc_core::machinery_error(&format!("mc-graph does not serve {prop}")),
